@@ -430,7 +430,7 @@ func (e *c29Env) newCompactor(bkt objstore.Bucket) (*compact.BucketCompactor, er
 
 // runCompact runs one Compact() of a fresh compactor behind a crash wrapper; returns the wrapper and the error.
 func (e *c29Env) runCompact(crashAt int) (*crashBucket, error) {
-	cb := &crashBucket{Bucket: e.raw, crashAt: crashAt, budget: 400, onMut: e.onMut}
+	cb := &crashBucket{Bucket: e.raw, crashAt: crashAt, budget: 80, onMut: e.onMut}
 	bc, err := e.newCompactor(cb)
 	if err != nil {
 		return cb, err
@@ -872,7 +872,7 @@ func genC29(c *hlib.Ctx) {
 			}
 		}
 	}
-	sets := c.N(6, 120)
+	sets := c.N(6, 25)
 	if c.Tier == "search" {
 		sets = 9
 	}
@@ -886,8 +886,8 @@ func genC29(c *hlib.Ctx) {
 		if events != "" && events != "-" {
 			c.Do(fmt.Sprintf("cp.valid %d %s", dd, events), true)
 		}
-		if n <= 0 {
-			continue
+		if n <= 0 || strings.Contains(out, "overrun") || n > 60 {
+			continue // nothing happened, or the crash-free run itself did not terminate
 		}
 		c.Count(fmt.Sprintf("crash-points:%d0s", n/10))
 		// every crash point of the first cycle (quick tier: at most 8 of them, evenly spread, first and last included)
